@@ -32,7 +32,10 @@ constexpr auto tgamma_check(T const x) noexcept -> T
 {
     return ( // NaN check
         is_nan(x) ? etl::numeric_limits<T>::quiet_NaN() :
-                  // indistinguishable from one or zero
+                  // gamma(+inf) = +inf
+            is_posinf(x) ? x
+                         :
+                         // indistinguishable from one or zero
             etl::numeric_limits<T>::epsilon() > abs(x - T(1)) ? T(1)
                                                               // gamma(x) = 1/x - 0.577... near zero (pole at +-0)
         : etl::numeric_limits<T>::epsilon() > abs(x)          ? T(1) / x
@@ -47,7 +50,8 @@ constexpr auto tgamma_check(T const x) noexcept -> T
                          // negative numbers, and (0, 1) where exp(lgamma(x)) loses accuracy:
                          // gamma(x) = gamma(x + 1) / x
             x < T(1) ? // check for integer
-            etl::numeric_limits<T>::epsilon() > abs(x - find_whole(x)) ? etl::numeric_limits<T>::quiet_NaN() :
+            // the poles are the integers themselves (gamma(-0.99999994f) = -1.7e7 is an ordinary value)
+            x == trunc(x) ? etl::numeric_limits<T>::quiet_NaN() :
                                                                        // else
                 tgamma_check(x + T(1)) / x
                      :
